@@ -132,9 +132,23 @@ Definition e_result (returning sorted : bool) (r : res (table * list row)) : tre
 
 Definition idf (l : list row) : list row := l.
 
+(* does the clause text mention bindparam number k *)
+Definition atom_uses (k : nat) (a : atom) : bool := match a with APar j => Nat.eqb k j | _ => false end.
+Definition expr_uses (k : nat) (e : expr) : bool :=
+  match e with EAtom a => atom_uses k a | EAdd a b => atom_uses k a || atom_uses k b end.
+Definition pred_uses (k : nat) (p : pred) : bool :=
+  match p with Pred _ l r => expr_uses k l || expr_uses k r end.
+Definition clause_uses (k : nat) (c : sa_clause) : bool :=
+  match c with
+  | SANothing _ => false
+  | SAUpdate _ s w =>
+      existsb (fun kv => expr_uses k (snd kv)) s || match w with Some p => pred_uses k p | None => false end
+  end.
+
 (* input   L [I 0; lit_exec; cols; indexes; clauses; returning; sorted; page; table; params]   execute (SQLite/PG rules)
            L [I 1; dialect; cols; clauses]                              render ON CONFLICT clauses (0 sqlite, 1 postgresql)
            L [I 2; cols; alias; ordered; update]                        render ON DUPLICATE KEY UPDATE
+           L [I 5; embed; clauses; returning; sorted; page; params]     the statements of an executemany: size and effective bindparams
            L [I 4; sorted; has_result; sentinel_none; upsert; embed; has_set_bp]  batching decision *)
 Definition run_case (t : tree) : tree :=
   match t with
@@ -156,6 +170,15 @@ Definition run_case (t : tree) : tree :=
       match as_list_of d_col cs, as_bool al, as_bool od, as_list_of (as_pair_of as_Z d_expr) upd with
       | Some cs, Some al, Some od, Some upd => L [I 0; of_list e_tok (r_mysql cs al (my_asm cs od upd))]
       | _, _, _, _ => bad_input
+      end
+  | L [I 5; em; sa; ret; srt; pg; ps] =>
+      match as_bool em, as_list_of d_clause sa, as_bool ret, as_bool srt, as_nat pg, as_list_of d_prow ps with
+      | Some em, Some sa, Some ret, Some srt, Some pg, Some ps =>
+          of_list (fun x => L [of_nat (fst x);
+                               e_row (map (fun k => if existsb (clause_uses k) sa then getv (snd x) k else None)
+                                          [0%nat; 1%nat])])
+                  (plan_view false em ret srt pg sa ps)
+      | _, _, _, _, _, _ => bad_input
       end
   | L [I 4; a; b; c; d; e; f] =>
       match as_bool a, as_bool b, as_bool c, as_bool d, as_bool e, as_bool f with
